@@ -221,6 +221,11 @@ func runKernelSet[T elem](c *vrt.Ctx, st *kernelStats, ks []kernel[T]) {
 							fmt.Sprintf("%s: %s", desc(), p.Msg), map[string]any{"case": desc(), "guard": mem})
 						continue
 					}
+					if n == 13 && k.strided {
+						sampAsm.offer(c, 1, func() any {
+							return map[string]any{"sub_check": "asm kernels on guard pages", "case": desc(), "outcome": "returned normally, no fault"}
+						})
+					}
 					for i := 0; i < k.nops; i++ {
 						var wr func(j int) bool
 						if i == k.writes {
